@@ -326,8 +326,10 @@ def run(tier):
 
     ck = Check("C04", tier)
     ck.assumptions += ASSUMPTIONS
-    br = common.build("C04", models=("incr",))
-    ck.proofs(br)
+    from . import cdefer  # lazily: cdefer imports c04
+    br = common.build("C04", models=("incr", "defer"), extra_targets=("theories/Properties/C04defer.vo",))
+    ck.proofs(br, extra_files=("C04defer",))
+    ck.assumptions += cdefer.ASSUMPTIONS
     if not br.ok:
         return ck.finish()
     m = Model("incr")
@@ -547,6 +549,11 @@ def run(tier):
             if init != minit or groups != mgroups:
                 ck.violation(f"plan:{case}", "build_execution_plan differs from the model",
                              {"relation": "build_execution_plan = model", "case": case, "impl": [init, groups], "model": [minit, mgroups]})
+    # the @defer executor model (proved to reassemble) vs the real incremental executor
+    rule0 = ck.rule
+    cdefer.core(ck, tier, br.ok)
+    ck.extra["defer_rule"] = ck.rule
+    ck.rule = rule0 + " (defer model) see coverage.defer_rule"
     return ck.finish()
 
 
